@@ -132,7 +132,21 @@ class SList(SV):
     @staticmethod
     def of(items):
         items = list(items)
-        return SList(len(items), lambda k, items=items: items[_conc(k)], concrete=items)
+
+        def elem(k, items=items):
+            try:
+                return items[_conc(k)]
+            except ValueError:
+                pass
+            # symbolic index into a concrete list: if-then-else chain (homogeneous node/str/int lists only)
+            for T, dflt in ((SNode, L.null), (SStr, L.none_s), (SInt, z3.IntVal(0))):
+                if all(isinstance(x, T) for x in items):
+                    t = dflt
+                    for i in reversed(range(len(items))):
+                        t = z3.If(k == i, items[i].t, t)
+                    return T(t)
+            raise ValueError('symbolic index into concrete list')
+        return SList(len(items), elem, concrete=items)
 
     def __repr__(self):
         return 'SList(len=%s %s)' % (self.length, self.desc)
